@@ -47,6 +47,8 @@ type generator struct {
 	// focus: a structural anomaly was reported by the hook; prefer operations on relation nodes and
 	// registered filters so that latent corruption becomes observable (the verdict stays observable-only)
 	focus bool
+	// pending steps of a generic filter life cycle (see "gfilter")
+	gplan []Op
 	// number of raw copies into pointer columns seen so far (hook counter); an increase triggers MoveStress
 	rawSeen int64
 }
@@ -1206,6 +1208,38 @@ func (g *generator) nextInner() Op {
 			}
 			return op
 		case "gfilter":
+			// life cycle of one filter object, step by step (other operations interleave): relation with a fixed or a
+			// per-query target, query, register, query, unregister, query, register again, query
+			if len(g.gplan) > 0 {
+				op := g.gplan[0]
+				g.gplan = g.gplan[1:]
+				if op.Op == "GQuery" && op.HasTgt {
+					op.Tgt = g.target(false)
+				}
+				return op
+			}
+			if len(g.x.gfs) < 6 && g.pct(12) {
+				gi := len(g.x.gfs)
+				ar := 3 + g.rng.Intn(4)
+				fixed := g.pct(65)
+				q := Op{Op: "GQuery", Api: "generic.Filter.Query", Qi: gi, Walk: g.walk(), Tgt: -1, HasTgt: !fixed}
+				wr := Op{Op: "GBuild", Api: "generic.Filter.WithRelation", Qi: gi, Ids: []int{2}, Tgt: -1}
+				if fixed {
+					wr.HasTgt, wr.Tgt = true, g.target(false)
+				}
+				plan := []Op{wr}
+				if g.pct(30) {
+					plan = append(plan, Op{Op: "GBuild", Api: "generic.Filter.Without", Qi: gi, Ids: g.subset(g.nons, 1), Tgt: -1})
+				}
+				reg := Op{Op: "GBuild", Api: "generic.Filter.Register", Qi: gi, Tgt: -1}
+				unreg := Op{Op: "GBuild", Api: "generic.Filter.Unregister", Qi: gi, Tgt: -1}
+				plan = append(plan, q, reg, q, unreg, q)
+				if g.pct(50) {
+					plan = append(plan, reg, q, unreg, q)
+				}
+				g.gplan = plan
+				return Op{Op: "GNewFilter", Api: "generic.NewFilter", Ar: ar}
+			}
 			if len(g.x.gfs) == 0 || (len(g.x.gfs) < 4 && g.pct(15)) {
 				ar := g.rng.Intn(13)
 				if g.pct(50) {
